@@ -1,5 +1,9 @@
 (** Replay of implementation observations (real AcraCensor / real common.CheckTableNamesMatch) on
-    the censor model.  Used by the correspondence check of C05 (domain c05). *)
+    the censor model.  Used by the correspondence check of C05 (domain c05).
+    [OpCensor]: the verdict of the real AcraCensor for one statement; exact-query and pattern results
+    of each handler are inputs, the TABLE rule is evaluated by the model on the FROM tree of the
+    statement ([rules_of]).  [OpTables]: one evaluation of common.CheckTableNamesMatch.
+    [OpChain]: the chain alone, all three match results as inputs (kept for hand-written cases). *)
 From Coq Require Import List Bool NArith.
 From Acra Require Import Lib.Bytes Lib.Outcome.
 From Acra Require Export Model.Censor.
@@ -17,9 +21,27 @@ Definition HAA := HAllowAll.
 Definition HDA := HDenyAll.
 Definition HC := HCapture.
 
+(** a handler as configured: allow/deny handlers carry their `tables:` list, the table rule is
+    evaluated by the model on the statement of the operation *)
+Inductive hspec :=
+| SA (hq mq : bool) (tables : list bytes) (hp mp : bool)
+| SD (hq mq : bool) (tables : list bytes) (hp mp : bool)
+| SAA | SDA | SI (hit : bool) | SC.
+
+Definition handler_of (s : stmt_tables) (h : hspec) : handler :=
+  match h with
+  | SA hq mq ts hp mp => HAllow (rules_of s hq mq ts hp mp)
+  | SD hq mq ts hp mp => HDeny (rules_of s hq mq ts hp mp)
+  | SAA => HAllowAll
+  | SDA => HDenyAll
+  | SI hit => HIgnore hit
+  | SC => HCapture
+  end.
+
 Inductive op :=
 | OpChain (ignore_parse_error has_writer parsed : bool) (hs : list handler)
-| OpTables (set : list bytes) (s : stmt_tables).
+| OpTables (set : list bytes) (s : stmt_tables)
+| OpCensor (ignore_parse_error has_writer parsed : bool) (s : stmt_tables) (hs : list hspec).
 
 Definition flag (b : bool) : bytes := [if b then x01 else x00].
 
@@ -38,6 +60,8 @@ Definition run (o : op) : expected :=
   match o with
   | OpChain ipe w parsed hs => XOk [verdict_code (handle_query (Censor ipe w) parsed hs)]
   | OpTables set s => let '(one, all) := check_table_names set s in XOk [flag one; flag all]
+  | OpCensor ipe w parsed s hs =>
+      XOk [verdict_code (handle_query (Censor ipe w) parsed (map (handler_of s) hs))]
   end.
 
 Fixpoint list_bytes_eqb (a b : list bytes) : bool :=
